@@ -15,7 +15,10 @@ import (
 	"math/rand"
 	"net"
 	"os"
+	"reflect"
 	"sort"
+
+	"gopkg.in/yaml.v3"
 
 	"github.com/scionproto/scion/pkg/addr"
 	"github.com/scionproto/scion/pkg/experimental/hiddenpath"
@@ -280,6 +283,62 @@ func randomOps(r *rand.Rand, npool int) []op {
 	return out
 }
 
+// groupTable: the finite table of group configurations through Group.Validate, Groups.Roles and the
+// YAML marshal / unmarshal round trip (judged, drift only, by HiddenPathTrace.tla).
+func groupTable(w *vt.Writer) int {
+	n := 0
+	subsets := func(xs []int) [][]int {
+		out := [][]int{}
+		for m := 0; m < 1<<len(xs); m++ {
+			s := []int{}
+			for i, x := range xs {
+				if m&(1<<i) != 0 {
+					s = append(s, x)
+				}
+			}
+			out = append(out, s)
+		}
+		return out
+	}
+	w.Emit(vt.M{"ev": "reset", "id": 0, "src": "table", "cfg": cfg{Local: 15, Groups: []groupCfg{}}, "pool": []vt.M{}})
+	for _, owner := range []int{0, 11, 12, 21} {
+		for _, ido := range []int{0, 1, 2} {
+			for _, suf := range []int{0, 1} {
+				for _, ws := range subsets([]int{11, 12}) {
+					for _, rs := range subsets([]int{14}) {
+						for _, gs := range subsets([]int{12, 15}) {
+							id := hiddenpath.GroupID{Suffix: uint16(suf)}
+							if ido != 0 {
+								id.OwnerAS = segpool.IA(10 + ido).AS()
+							}
+							g := &hiddenpath.Group{ID: id, Owner: segpool.IA(owner), Writers: iaSet(ws),
+								Readers: iaSet(rs), Registries: iaSet(gs)}
+							valid := g.Validate() == nil
+							groups := hiddenpath.Groups{id: g}
+							roles := []vt.M{}
+							for _, ia := range []int{11, 12, 14, 15, 21} {
+								r := groups.Roles(segpool.IA(ia))
+								roles = append(roles, vt.M{"ia": ia, "o": r.Owner, "g": r.Registry, "r": r.Reader, "w": r.Writer})
+							}
+							rt := false
+							if raw, err := yaml.Marshal(groups); err == nil {
+								back := hiddenpath.Groups{}
+								if err := yaml.Unmarshal(raw, &back); err == nil {
+									rt = reflect.DeepEqual(groups, back)
+								}
+							}
+							w.Emit(vt.M{"ev": "gcfg", "owner": owner, "ido": ido, "suf": suf, "writers": ws,
+								"readers": rs, "regs": gs, "valid": valid, "rt": rt, "roles": roles})
+							n++
+						}
+					}
+				}
+			}
+		}
+	}
+	return n
+}
+
 func main() {
 	out := flag.String("out", "trace.ndjson", "output trace")
 	scn := flag.String("scn", "", "scenario file (TLC-generated histories)")
@@ -335,6 +394,8 @@ func main() {
 		}
 		f.Close()
 	}
+	groupTable(w)
+	ntr++
 	if *nrand > 0 {
 		e := &env{w: w, pool: segpool.NewPool(bigPool())}
 		r := vt.Rand(4501)
